@@ -25,26 +25,72 @@ Proof. induction n; intros H. cbn [rsum]. simpl. rewrite Rminus_0_r, Rabs_R0. lr
   replace (rsum n f + f n - (rsum n g + g n)) with ((rsum n f - rsum n g) + (f n - g n)) by ring.
   eapply Rle_trans; [apply Rabs_triang|]. specialize (IHn ltac:(intros; apply H; lia)). specialize (H n ltac:(lia)). lra. Qed.
 
+(* overflow guard: every shifted exponential is in (0,1], one of them equals 1 *)
+Theorem shifted_exp_in_unit (K' : nat) (l : nat -> R) :
+  (forall k, (k < S K')%nat -> 0 < shifted RO K' l k <= 1) /\ exists k, (k < S K')%nat /\ shifted RO K' l k = 1.
+Proof. split.
+  - intros k Hk. unfold shifted; cbn [oexp oadd oopp RO]. split. apply exp_pos.
+    rewrite <- exp_0. pose proof (bmax_ge K' l k ltac:(lia)) as Hge.
+    destruct (Rle_lt_or_eq_dec _ _ Hge) as [Hlt|Heq].
+    + left. apply exp_increasing. lra.
+    + right. f_equal. lra.
+  - destruct (bmax_attained K' l) as [k [Hk E]]. exists k. split. lia.
+    unfold shifted; cbn [oexp oadd oopp RO]. rewrite E. replace (l k + - l k) with 0 by ring. apply exp_0. Qed.
+
+(* ---- the maximum over the ACTIVE classes (source_activity_mask) ---- *)
+Section ActiveMax.
+Variables (l : nat -> R) (b : nat -> bool).
+Lemma amax_opt_none n : amax_opt RO l b n = None -> forall k, (k <= n)%nat -> b k = false.
+Proof. induction n; cbn [amax_opt]; intros H k Hk.
+  - replace k with 0%nat by lia. destruct (b 0%nat); congruence.
+  - destruct (amax_opt RO l b n) eqn:E.
+    + destruct (b (S n)); discriminate.
+    + destruct (Nat.eq_dec k (S n)) as [->|Hne]. destruct (b (S n)); congruence. apply IHn; auto. lia. Qed.
+Lemma amax_opt_some n v : amax_opt RO l b n = Some v ->
+  (forall k, (k <= n)%nat -> b k = true -> l k <= v) /\ exists k, (k <= n)%nat /\ b k = true /\ l k = v.
+Proof. revert v. induction n; cbn [amax_opt]; intros v H.
+  - destruct (b 0%nat) eqn:B; [|discriminate]. injection H as <-. split.
+    intros k Hk _. replace k with 0%nat by lia. lra. exists 0%nat. auto.
+  - destruct (amax_opt RO l b n) as [u|] eqn:E.
+    + destruct (IHn u eq_refl) as [Hge [j [Hj [Bj Ej]]]]. destruct (b (S n)) eqn:B; injection H as <-.
+      * rewrite omax_RO. split.
+        intros k Hk Bk. destruct (Nat.eq_dec k (S n)) as [->|Hne]. apply Rmax_r.
+        eapply Rle_trans; [apply Hge; auto; lia | apply Rmax_l].
+        unfold Rmax. destruct (Rle_dec u (l (S n))). exists (S n). auto. exists j. repeat split; auto.
+      * split. intros k Hk Bk. destruct (Nat.eq_dec k (S n)) as [->|Hne]. congruence. apply Hge; auto. lia.
+        exists j. repeat split; auto.
+    + destruct (b (S n)) eqn:B; [|discriminate]. injection H as <-. split.
+      intros k Hk Bk. destruct (Nat.eq_dec k (S n)) as [->|Hne]. lra.
+      pose proof (amax_opt_none n E k ltac:(lia)). congruence.
+      exists (S n). auto. Qed.
+Lemma amax_opt_active n k : (k <= n)%nat -> b k = true -> exists v, amax_opt RO l b n = Some v.
+Proof. intros Hk Bk. destruct (amax_opt RO l b n) eqn:E. eauto. pose proof (amax_opt_none n E k Hk). congruence. Qed.
+
+Variable K' : nat.
+(* the masked log-pdfs have the active maximum as their maximum *)
+Lemma bmax_lmask : bmax RO K' (lmask RO K' l b) = amax RO K' l b.
+Proof. unfold amax. destruct (amax_opt RO l b K') as [v|] eqn:E.
+  - destruct (amax_opt_some K' v E) as [Hge [j [Hj [Bj Ej]]]]. apply Rle_antisym.
+    + destruct (bmax_attained K' (lmask RO K' l b)) as [k [Hk Ek]]. rewrite Ek. unfold lmask, amax. rewrite E.
+      destruct (b k) eqn:Bk. apply Hge; auto. lra.
+    + rewrite <- Ej. replace (l j) with (lmask RO K' l b j) by (unfold lmask; rewrite Bj; reflexivity). apply bmax_ge. lia.
+  - destruct (bmax_attained K' (lmask RO K' l b)) as [k [Hk Ek]]. rewrite Ek. unfold lmask, amax. rewrite E.
+    rewrite (amax_opt_none K' E k Hk). reflexivity. Qed.
+(* an active class with the largest log-pdf among the active ones carries the scaling *)
+Lemma amax_of_best k : (k <= K')%nat -> b k = true -> (forall j, (j <= K')%nat -> b j = true -> l j <= l k) ->
+  amax RO K' l b = l k.
+Proof. intros Hk Bk Hbest. unfold amax. destruct (amax_opt_active K' k Hk Bk) as [v E]. rewrite E.
+  destruct (amax_opt_some K' v E) as [Hge [j [Hj [Bj Ej]]]]. apply Rle_antisym. rewrite <- Ej. apply Hbest; auto. apply Hge; auto. Qed.
+End ActiveMax.
+
 Section Thm.
 Variables (K':nat) (tiny:R) (w l:nat->R) (b:nat->bool).
 Let K := S K'.
 Hypothesis Htiny : 0 < tiny.
 Hypothesis Hw : forall k, (k<K)%nat -> 0 <= w k.
 
-(* overflow guard: every shifted exponential is in (0,1], one of them equals 1 *)
-Theorem shifted_exp_in_unit :
-  (forall k, (k<K)%nat -> 0 < shifted RO K' l k <= 1) /\ exists k, (k<K)%nat /\ shifted RO K' l k = 1.
-Proof. split.
-  - intros k Hk. unfold shifted; cbn [oexp oadd oopp RO]. split. apply exp_pos.
-    rewrite <- exp_0. pose proof (bmax_ge K' l k ltac:(unfold K in Hk; lia)) as Hge.
-    destruct (Rle_lt_or_eq_dec _ _ Hge) as [Hlt|Heq].
-    + left. apply exp_increasing. lra.
-    + right. f_equal. lra.
-  - destruct (bmax_attained K' l) as [k [Hk E]]. exists k. split. unfold K; lia.
-    unfold shifted; cbn [oexp oadd oopp RO]. rewrite E. replace (l k + - l k) with 0 by ring. apply exp_0. Qed.
-
 Lemma unnorm_nonneg k : (k<K)%nat -> 0 <= unnorm RO K' w l b k.
-Proof. intros Hk. unfold unnorm. destruct (shifted_exp_in_unit) as [H _]. specialize (H k Hk). specialize (Hw k Hk).
+Proof. intros Hk. unfold unnorm. destruct (shifted_exp_in_unit K' (lmask RO K' l b)) as [H _]. specialize (H k Hk). specialize (Hw k Hk).
   cbn [omul RO]. destruct (b k); cbn [obool o0 o1 RO]; nra. Qed.
 
 Lemma den_pos : 0 < den RO K' tiny w l b.
@@ -90,14 +136,17 @@ Proof.
     replace 1 with (tiny * / tiny) by (field; lra). apply Rmult_lt_compat_r; lra.
 Qed.
 
-(* the floor is not taken when an arg-max class is active with weight >= tiny *)
+(* the floor is not taken when the best ACTIVE class (largest log-pdf among the active ones) has weight >= tiny -
+   whatever the log-pdfs of the inactive classes are *)
 Theorem posterior_floor_inactive :
-  (exists k, (k<K)%nat /\ l k = bmax RO K' l /\ b k = true /\ tiny <= w k) ->
+  (exists k, (k<K)%nat /\ b k = true /\ tiny <= w k /\ forall j, (j<K)%nat -> b j = true -> l j <= l k) ->
   tiny <= rsum K (unnorm RO K' w l b).
-Proof. intros [k [Hk [El [Hb Hwk]]]].
+Proof. intros [k [Hk [Hb [Hwk Hbest]]]].
   eapply Rle_trans; [| apply (term_le_rsum K _ k (fun j Hj => unnorm_nonneg j Hj) Hk)].
-  unfold unnorm, shifted. rewrite Hb, El. cbn [omul oexp oadd oopp obool o1 RO].
-  replace (bmax RO K' l + - bmax RO K' l) with 0 by ring. rewrite exp_0. lra. Qed.
+  unfold unnorm, shifted. rewrite bmax_lmask.
+  rewrite (amax_of_best l b K' k ltac:(unfold K in Hk; lia) Hb ltac:(intros j Hj; apply Hbest; unfold K; lia)).
+  unfold lmask. rewrite Hb. cbn [omul oexp oadd oopp obool o1 RO].
+  replace (l k + - l k) with 0 by ring. rewrite exp_0. lra. Qed.
 
 (* Bayes' rule *)
 Theorem posterior_is_bayes k :
@@ -106,9 +155,10 @@ Theorem posterior_is_bayes k :
   = (w k * (if b k then 1 else 0) * exp (l k)) / rsum K (fun j => w j * (if b j then 1 else 0) * exp (l j)).
 Proof.
   intros Hden. unfold posterior, den. rewrite omax_RO, (bsum_RO (S K')). fold K. rewrite (Rmax_left _ _ Hden). cbn [omul oinv RO].
-  set (m := bmax RO K' l).
+  set (m := bmax RO K' (lmask RO K' l b)).
   assert (E: forall j, unnorm RO K' w l b j = (w j * (if b j then 1 else 0) * exp (l j)) * exp (- m)).
-  { intros j. unfold unnorm, shifted. fold m. cbn [omul oexp oadd oopp RO]. rewrite exp_plus. destruct (b j); cbn [obool o0 o1 RO]; ring. }
+  { intros j. unfold unnorm, shifted. fold m. cbn [omul oexp oadd oopp RO]. rewrite exp_plus. unfold lmask.
+    destruct (b j); cbn [obool o0 o1 RO]; ring. }
   assert (ES: rsum K (unnorm RO K' w l b) = rsum K (fun j => w j * (if b j then 1 else 0) * exp (l j)) * exp (- m)).
   { rewrite (rsum_ext K _ _ (fun j _ => E j)). apply rsum_scale. }
   rewrite ES in *. rewrite E. pose proof (exp_pos (- m)).
